@@ -7,6 +7,7 @@ Require Import LV.SelfCal.WeightModel LV.SelfCal.WeightProofs LV.SelfCal.WeightQ
 Require Import LV.SelfCal.LsqModel LV.SelfCal.LsqProofs LV.SelfCal.LsqLinkModel LV.SelfCal.LsqLinkProofs.
 Require Import LV.SelfCal.GuardModel LV.SelfCal.GuardProofs.
 Require Import LV.SelfCal.C18MErrorModel LV.SelfCal.C18MErrorProofs.
+Require Import LV.SelfCal.PvalueModel LV.SelfCal.PvalueProofs LV.SelfCal.PvalueQI.
 
 (* ---- the weight of every equation is the one computed from its own measurement ----
    These theorems are about INDEX ALIGNMENT: which measurement w_vector[i] was computed from and
@@ -378,3 +379,247 @@ Theorem m_error_without_reinit_single_call_agrees_thm : forall (F : nat) (nf : l
   n_run false None [(repeat (0, 0)%nat F, MSet nat nf tr)] = n_run true None [(repeat (0, 0)%nat F, MSet nat nf tr)].
 Proof. exact without_reinit_single_call_agrees. Qed.
 Print Assumptions m_error_without_reinit_single_call_agrees_thm.
+
+(* ==== vnacal_new_set_m_error with its ARGUMENTS (C18MErrorModel.v, Section Args): validation as coded,
+        the three ways of obtaining the values (one point / calibration grid / spline on an own grid;
+        the interpolation is an abstract function), any order relation ==== *)
+(* THE LAST CALL WINS, for every history: h is any list of calls with any arguments (accepted or
+   rejected, any kind of grid, with or without sigma_tr_vector, NULL / NULL) on any earlier state; a call
+   that is not rejected then leaves exactly what the same call leaves on a structure that never saw a call
+   (whatever malloc returned in either case) *)
+Theorem m_error_last_call_wins_thm : forall (R : Type) (r0 : R) (leb ltb : R -> R -> bool)
+  (interp : list R -> list R -> R -> R) (env : menv R) (h : list (mvec R * margs R)) (st : option (mvec R))
+  (a : margs R) (fresh fresh' : list (R * R)),
+  state_wf R (length (en_calf R env)) st -> fresh_ok R env h ->
+  length fresh = length (en_calf R env) -> length fresh' = length (en_calf R env) ->
+  lower R r0 leb ltb interp env a <> MInvalid R ->
+  run_args R r0 leb ltb interp true env st (h ++ [(fresh, a)]) =
+  run_args R r0 leb ltb interp true env None [(fresh', a)].
+Proof. exact m_error_last_call_wins. Qed.
+Print Assumptions m_error_last_call_wins_thm.
+
+Theorem m_error_args_history_thm : forall (R : Type) (r0 : R) (leb ltb : R -> R -> bool)
+  (interp : list R -> list R -> R -> R) (env : menv R) (h : list (mvec R * margs R)) (st : option (mvec R)),
+  state_wf R (length (en_calf R env)) st -> fresh_ok R env h ->
+  run_args R r0 leb ltb interp true env st h =
+  last_effective R r0 (length (en_calf R env))
+    (map (fun fa : mvec R * margs R => (fst fa, lower R r0 leb ltb interp env (snd fa))) h) st.
+Proof. exact run_args_last_effective. Qed.
+Print Assumptions m_error_args_history_thm.
+
+(* a call that returns -1 changes nothing (every test precedes the first write) *)
+Theorem m_error_rejected_call_ignored_thm : forall (R : Type) (r0 : R) (leb ltb : R -> R -> bool)
+  (interp : list R -> list R -> R -> R) (env : menv R) (h : list (mvec R * margs R)) (st : option (mvec R))
+  (a : margs R) (fresh : mvec R),
+  lower R r0 leb ltb interp env a = MInvalid R ->
+  run_args R r0 leb ltb interp true env st (h ++ [(fresh, a)]) = run_args R r0 leb ltb interp true env st h.
+Proof. exact m_error_rejected_call_ignored. Qed.
+Print Assumptions m_error_rejected_call_ignored_thm.
+
+Theorem m_error_disable_thm : forall (R : Type) (r0 : R) (leb ltb : R -> R -> bool)
+  (interp : list R -> list R -> R -> R) (env : menv R) (h : list (mvec R * margs R)) (st : option (mvec R))
+  (a : margs R) (fresh : mvec R),
+  a_n R a <> 0%nat -> a_nf R a = None -> a_tr R a = None ->
+  run_args R r0 leb ltb interp true env st (h ++ [(fresh, a)]) = None.
+Proof. exact m_error_disable. Qed.
+Print Assumptions m_error_disable_thm.
+
+(* all three kinds of grid, a rejected call, NULL / NULL, a grid that does not cover the calibration range,
+   and the model variant without the "always init" loop, in one concrete history *)
+Theorem m_error_args_instance_thm :
+  let junk := [(91, 92); (93, 94); (95, 96)]%nat in
+  let h := [(junk, {| a_fv := Some [5; 40]; a_n := 2; a_nf := Some [1; 2]; a_tr := Some [3; 4] |});
+            (junk, {| a_fv := None; a_n := 3; a_nf := Some [1; 0; 2]; a_tr := None |});
+            (junk, {| a_fv := None; a_n := 3; a_nf := Some [6; 7; 8]; a_tr := None |})]%nat in
+  fresh_ok nat n_env h /\
+  n_returns n_env h = [true; false; true] /\
+  n_run_args true n_env None (firstn 2 h) = Some [(110, 110); (120, 120); (130, 130)]%nat /\
+  n_run_args true n_env None h = Some [(6, 0); (7, 0); (8, 0)]%nat /\
+  n_run_args true n_env None (h ++ [(junk, {| a_fv := None; a_n := 1; a_nf := Some [9]; a_tr := Some [4] |})])%nat
+    = Some [(9, 4); (9, 4); (9, 4)]%nat /\
+  n_run_args true n_env None (h ++ [(junk, {| a_fv := None; a_n := 1%nat; a_nf := None; a_tr := None |})]) = None /\
+  n_returns n_env [(junk, {| a_fv := Some [15; 40]; a_n := 2; a_nf := Some [1; 2]; a_tr := None |})]%nat = [false] /\
+  n_run_args false n_env None h = Some [(6, 110); (7, 120); (8, 130)]%nat.
+Proof. exact run_args_instance. Qed.
+Print Assumptions m_error_args_instance_thm.
+
+(* ==== the weight FORMULA and the p-value computation as coded (PvalueModel.v) ==== *)
+Local Open Scope Qc_scope.
+
+(* weight2 = |m|^2 tr^2 + nf^2 is positive for sigma_nf > 0 and grows with |m|; the weight
+   rsqrt(weight2) falls with |m| for any decreasing rsqrt and never vanishes for any rsqrt with
+   rsqrt(a)^2 a = 1; without a tracking term all weights are equal *)
+Theorem weight2_pos_thm : forall (C : Type) (N : C -> Qc), (forall z : C, 0 <= N z) ->
+  forall (nf tr : Qc) (m : C), 0 < nf -> 0 < weight2 C N nf tr m.
+Proof. exact weight2_pos. Qed.
+Print Assumptions weight2_pos_thm.
+
+Theorem weight2_monotone_thm : forall (C : Type) (N : C -> Qc) (nf tr : Qc) (m1 m2 : C),
+  N m1 <= N m2 -> weight2 C N nf tr m1 <= weight2 C N nf tr m2.
+Proof. exact weight2_monotone. Qed.
+Print Assumptions weight2_monotone_thm.
+
+Theorem weight_antitone_thm : forall (C : Type) (N : C -> Qc) (rsqrt : Qc -> Qc),
+  (forall z : C, 0 <= N z) -> (forall a b : Qc, 0 < a -> a <= b -> rsqrt b <= rsqrt a) ->
+  forall (nf tr : Qc) (m1 m2 : C), 0 < nf -> N m1 <= N m2 ->
+  weight C N rsqrt nf tr m2 <= weight C N rsqrt nf tr m1.
+Proof. exact weight_antitone. Qed.
+Print Assumptions weight_antitone_thm.
+
+Theorem weight_without_tracking_thm : forall (C : Type) (N : C -> Qc) (rsqrt : Qc -> Qc) (nf : Qc) (m1 m2 : C),
+  weight C N rsqrt nf 0 m1 = weight C N rsqrt nf 0 m2.
+Proof. exact weight_without_tracking. Qed.
+Print Assumptions weight_without_tracking_thm.
+
+Theorem weight_nonzero_thm : forall (C : Type) (N : C -> Qc) (rsqrt : Qc -> Qc),
+  (forall z : C, 0 <= N z) -> (forall a : Qc, 0 < a -> rsqrt a * rsqrt a * a = 1) ->
+  forall (nf tr : Qc) (m : C), 0 < nf -> weight C N rsqrt nf tr m <> 0.
+Proof. exact weight_nonzero. Qed.
+Print Assumptions weight_nonzero_thm.
+
+(* the divisor of the chi-square statistic is the reciprocal square of the weight the solver used *)
+Theorem normalised_residual_thm : forall (C : Type) (N : C -> Qc) (rsqrt : Qc -> Qc),
+  (forall z : C, 0 <= N z) -> (forall a : Qc, 0 < a -> rsqrt a * rsqrt a * a = 1) ->
+  forall (nf tr : Qc) (m : C) (r : Qc), 0 < nf ->
+  r / weight2 C N nf tr m = weight C N rsqrt nf tr m * weight C N rsqrt nf tr m * r.
+Proof. exact normalised_residual. Qed.
+Print Assumptions normalised_residual_thm.
+
+(* ... so that the statistic accumulated over a system is twice the weighted least-squares cost of
+   LsqModel for any least-squares form of its equations *)
+Theorem chisq_is_twice_cost_thm : forall (K : CField) (N : K -> Qc) (rsqrt : Qc -> Qc),
+  (forall z : K, 0 <= N z) -> (forall a : Qc, 0 < a -> rsqrt a * rsqrt a * a = 1) ->
+  forall (nf tr : Qc) (x : list K) (off : nat) (es : list (equation K)) (qs : list (eqn K)),
+  0 < nf -> Forall2 (lsq_form K N rsqrt nf tr x off) es qs ->
+  forall st : Qc * Z,
+  fst (fold_left (acc_equation K c0 c1 cadd cmul copp N nf tr x off) es st) = fst st + q_two * cost K N qs x.
+Proof. exact chisq_is_twice_cost. Qed.
+Print Assumptions chisq_is_twice_cost_thm.
+
+(* the degrees of freedom of calc_stat are WeightModel.dof (dof_count_thm gives the closed form: cells with
+   0 or 1 sample contribute 0, a cell with n > 1 samples 2 (n - 1)) of the equation counts and the
+   sample counts, whatever the data *)
+Theorem calc_stat_df_thm : forall (C : Type) (c0 c1 : C) (cadd cmul : C -> C -> C) (copp : C -> C) (N : C -> Qc)
+  (unknowns : nat) (nf tr : Qc) (x : list C) (systems : list (list (equation C))) (leak : option (list (lcell C))),
+  snd (calc_stat C c0 c1 cadd cmul copp N unknowns nf tr x systems leak) =
+  dof (Z.of_nat unknowns) (map (fun l : list (equation C) => Z.of_nat (length l)) systems)
+      match leak with Some cells => map (l_count C) cells | None => [] end.
+Proof. exact calc_stat_df. Qed.
+Print Assumptions calc_stat_df_thm.
+
+(* EXACT DATA: every residual the code computes is zero and no leakage cell has scatter: the statistic
+   is 0, the p-value 1 for EVERY number of equations / samples / degrees of freedom (over-determined
+   included), for every sigma_nf, sigma_tr and every exp, erfc, sqrt; never rejected at a limit <= 1 *)
+Theorem exact_data_chisq_zero_thm : forall (C : Type) (c0 c1 : C) (cadd cmul : C -> C -> C) (copp : C -> C)
+  (N : C -> Qc), N c0 = 0 ->
+  forall (unknowns : nat) (nf tr : Qc) (x : list C) (systems : list (list (equation C))) (leak : option (list (lcell C))),
+  fits C c0 c1 cadd cmul copp unknowns x systems ->
+  match leak with Some cells => Forall (leak_exact C N) cells | None => True end ->
+  fst (calc_stat C c0 c1 cadd cmul copp N unknowns nf tr x systems leak) = 0.
+Proof. exact exact_data_chisq_zero. Qed.
+Print Assumptions exact_data_chisq_zero_thm.
+
+Theorem exact_data_pvalue_one_thm : forall (C : Type) (c0 c1 : C) (cadd cmul : C -> C -> C) (copp : C -> C)
+  (N : C -> Qc), N c0 = 0 ->
+  forall (exp erfc sqrt : Qc -> Qc) (pi : Qc) (unknowns : nat) (nf tr : Qc) (x : list C)
+         (systems : list (list (equation C))) (leak : option (list (lcell C))),
+  fits C c0 c1 cadd cmul copp unknowns x systems ->
+  match leak with Some cells => Forall (leak_exact C N) cells | None => True end ->
+  calc_pvalue C c0 c1 cadd cmul copp N exp erfc sqrt pi unknowns nf tr x systems leak = 1.
+Proof. exact exact_data_pvalue_one. Qed.
+Print Assumptions exact_data_pvalue_one_thm.
+
+Theorem exact_data_never_rejected_thm : forall (C : Type) (c0 c1 : C) (cadd cmul : C -> C -> C) (copp : C -> C)
+  (N : C -> Qc), N c0 = 0 ->
+  forall (exp erfc sqrt : Qc -> Qc) (pi : Qc) (st : mstate) (limit : Qc) (findex unknowns : nat) (x : list C)
+         (systems : list (list (equation C))) (leak : option (list (lcell C))),
+  limit <= 1 -> fits C c0 c1 cadd cmul copp unknowns x systems ->
+  match leak with Some cells => Forall (leak_exact C N) cells | None => True end ->
+  solve_rejects C c0 c1 cadd cmul copp N exp erfc sqrt pi st limit findex unknowns x systems leak = false.
+Proof. exact exact_data_never_rejected. Qed.
+Print Assumptions exact_data_never_rejected_thm.
+
+(* a leakage cell all of whose samples are equal (any number of them) has no scatter: Gaussian rationals *)
+Theorem equal_samples_leak_exact_thm : forall (l : qi) (n : nat), q_leak_exact (q_leak_of_samples (repeat l n)).
+Proof. exact equal_samples_leak_exact. Qed.
+Print Assumptions equal_samples_leak_exact_thm.
+
+(* chisq_pvalue(n, 0) = 1 for every n by the "x <= 0" exit; the even-df recurrence agrees with that exit
+   when exp 0 = 1 *)
+Theorem chisq_pvalue_zero_thm : forall (exp erfc sqrt : Qc -> Qc) (pi : Qc) (n : Z),
+  chisq_pvalue exp erfc sqrt pi n 0 = 1.
+Proof. exact chisq_pvalue_zero. Qed.
+Print Assumptions chisq_pvalue_zero_thm.
+
+Theorem chisq_even_branch_at_zero_thm : forall exp : Qc -> Qc, exp 0 = 1 ->
+  forall k : nat, exp (- 0) * even_sum 0 (S k) 0 1 0 = 1.
+Proof. exact even_branch_at_zero. Qed.
+Print Assumptions chisq_even_branch_at_zero_thm.
+
+(* all hypotheses met at Q[i]: two systems (offsets 0 and 1), negative and right-hand-side terms, leakage
+   cells with three equal samples / one / none: statistic 0, df 10; one measurement moved: statistic > 0;
+   scattered leakage samples: statistic > 0 *)
+Theorem pvalue_hypotheses_satisfiable_thm :
+  q_fits 1 ex_x ex_systems /\ Forall q_leak_exact ex_leak /\
+  (Qc_eq_bool (fst (q_calc_stat 1 ex_nf ex_tr ex_x ex_systems (Some ex_leak))) 0 = true /\
+   snd (q_calc_stat 1 ex_nf ex_tr ex_x ex_systems (Some ex_leak)) = 10%Z /\
+   Qc_lt_b 0 (fst (q_calc_stat 1 ex_nf ex_tr ex_x ex_systems_off (Some ex_leak))) = true /\
+   snd (q_calc_stat 1 ex_nf ex_tr ex_x ex_systems_off (Some ex_leak)) = 10%Z /\
+   Qc_lt_b 0 (fst (q_calc_stat 1 ex_nf ex_tr ex_x ex_systems
+                      (Some [q_leak_of_samples [QI (zq 1) (zq 2); QI (zq 1) (zq 3)]]))) = true).
+Proof. exact (conj ex_fits (conj ex_leak_exact ex_stat)). Qed.
+Print Assumptions pvalue_hypotheses_satisfiable_thm.
+
+Theorem weight2_instance_thm :
+  q_weight2 ex_nf ex_tr (qn 1) = Q2Qc (101 # 10000) /\ q_weight2 ex_nf ex_tr (qn 2) = Q2Qc (401 # 10000) /\
+  q_weight2 ex_nf 0 (qn 1) = q_weight2 ex_nf 0 (qn 2).
+Proof. exact ex_weight2. Qed.
+Print Assumptions weight2_instance_thm.
+
+(* exact data with the weight FORMULA (PvalueModel.weight: rsqrt of sigma_nf^2 + sigma_tr^2 |m|^2 of the
+   equation's own measurement) indexed as the code indexes it: the link theorems above without the
+   abstract "weight function without zeros" -- that premise is discharged by sigma_nf > 0 *)
+Theorem exact_data_simple_weight_formula_thm : forall (K : CField) (N : K -> Qc) (rsqrt : Qc -> Qc),
+  (forall z : K, 0 <= N z) -> (forall z : K, N z = 0 -> z = c0) -> N c0 = 0 ->
+  (forall a : Qc, 0 < a -> rsqrt a * rsqrt a * a = 1) ->
+  forall (nf tr : Qc) (rows : nat -> nat -> list K * K) (sys : systems K) (s : nat) (x0 : list K),
+  0 < nf -> (s < length sys)%nat ->
+  let ws := weighted_system_simple K K (weight K N rsqrt nf tr) rows sys s in
+  consistent K ws x0 -> injective K ws x0 ->
+  cost K N ws x0 = 0 /\ minimises K N ws x0 /\
+  (forall x : list K, length x = length x0 -> minimises K N ws x -> x = x0) /\
+  (forall x : list K, length x = length x0 -> minimises K N ws x <-> minimises K N (unweighted K ws) x).
+Proof. exact exact_data_simple_weight_formula. Qed.
+Print Assumptions exact_data_simple_weight_formula_thm.
+
+Theorem exact_data_auto_weight_formula_thm : forall (K : CField) (N : K -> Qc) (rsqrt : Qc -> Qc),
+  (forall z : K, 0 <= N z) -> (forall z : K, N z = 0 -> z = c0) -> N c0 = 0 ->
+  (forall a : Qc, 0 < a -> rsqrt a * rsqrt a * a = 1) ->
+  forall (nf tr : Qc) (rows : nat -> nat -> list K * K) (sys : systems K) (x0 : list K),
+  0 < nf ->
+  let ws := weighted_system_auto K K (weight K N rsqrt nf tr) rows sys in
+  consistent K ws x0 -> injective K ws x0 ->
+  cost K N ws x0 = 0 /\ minimises K N ws x0 /\
+  (forall x : list K, length x = length x0 -> minimises K N ws x -> x = x0) /\
+  (forall x : list K, length x = length x0 -> minimises K N ws x <-> minimises K N (unweighted K ws) x).
+Proof. exact exact_data_auto_weight_formula. Qed.
+Print Assumptions exact_data_auto_weight_formula_thm.
+
+(* DISABLING: after any history of calls on any state, NULL / NULL (frequencies >= 1) leaves the state of
+   a structure that never had a noise model, and a solve on it multiplies no equation, computes no
+   p-value, rejects nothing *)
+Theorem disable_restores_thm : forall (C : Type) (c0 c1 : C) (cadd cmul : C -> C -> C) (copp : C -> C)
+  (N : C -> Qc) (rsqrt exp erfc sqrt : Qc -> Qc) (pi : Qc) (leb ltb : Qc -> Qc -> bool)
+  (interp : list Qc -> list Qc -> Qc -> Qc) (env : menv Qc) (h : list (mvec Qc * margs Qc))
+  (st : option (mvec Qc)) (fresh : mvec Qc) (a : margs Qc),
+  a_n Qc a <> 0%nat -> a_nf Qc a = None -> a_tr Qc a = None ->
+  let after := run_args Qc 0 leb ltb interp true env st (h ++ [(fresh, a)]) in
+  let never := run_args Qc 0 leb ltb interp true env None [] in
+  after = never /\
+  (forall (findex : nat) (m : C), eq_factor C N rsqrt after findex m = 1) /\
+  (forall (limit : Qc) (findex unknowns : nat) (x : list C) (systems : list (list (equation C)))
+          (leak : option (list (lcell C))),
+     solve_pvalue C c0 c1 cadd cmul copp N exp erfc sqrt pi after limit findex unknowns x systems leak = None /\
+     solve_rejects C c0 c1 cadd cmul copp N exp erfc sqrt pi after limit findex unknowns x systems leak = false).
+Proof. exact disable_restores. Qed.
+Print Assumptions disable_restores_thm.
